@@ -2281,7 +2281,7 @@ def distributed_shampoo(
     if pspec and len(pspec) > 1:
       return jax.sharding.PartitionSpec(*pspec[1:])
     else:
-      return []
+      return jax.sharding.PartitionSpec()
 
   def sharded_init_partition_spec_fn(params, params_partition_spec,
                                      partition_spec_for_statistics):
@@ -2381,8 +2381,12 @@ def distributed_shampoo(
       m1_scale_shape_and_dtype = []
       m2_scale_shape_and_dtype = []
       if qdtype != jnp.float32:
-        m1_scale_shape_and_dtype = [list(param.shape)[1:], qdtype]
-        m2_scale_shape_and_dtype = [list(param.shape)[1:], qdtype]
+        # The payload is stored in the quantized dtype, the per-column bucket
+        # sizes in the parameter's float dtype (not the other way round).
+        m1_shape_and_dtype = [list(param.shape), qdtype]
+        m2_shape_and_dtype = [list(param.shape), qdtype]
+        m1_scale_shape_and_dtype = [list(param.shape)[1:], param.dtype]
+        m2_scale_shape_and_dtype = [list(param.shape)[1:], param.dtype]
 
       diagonal_statistics_shape_and_dtype = [list(param.shape), param.dtype]
       local_stats_flat.append(
